@@ -178,6 +178,9 @@ def run(check, an: Analysis):
     ok = bool(rps) and all(
         len(rp.loops) == 1 and len(rp.runs) == 1 and rp.loops[0] < rp.runs[0]
         and rp.initial in ('activities', 'root') and rp.start == 'start' for rp in rps)
+    check.instance('P', 'usim.run:till-is-None-test', bool(rps) and all(
+        rp.limited is not None for rp in rps), where_fn(run_fn),
+        'whether a `till` was given is decided by `is None` on every path: 0 is a date')
     check.instance('P', 'usim.run:one-loop', ok, where_fn(run_fn),
                    'loop = Loop(*activities, start=start); loop.run() exactly once on every '
                    'path (%d normal paths)' % len(rps), analysed=len(rps))
